@@ -4,13 +4,13 @@ from . import *
 from . import traffic as T
 
 SPEC = {
-    'C01': dict(prop='Properties_C01.v', kinds=['mixed', 'storm'], oracles=[T.oracle_exactly_once, T.oracle_layout], gen=['Gen_layout', 'Gen_router'],
+    'C01': dict(prop='Properties_C01.v', kinds=['mixed', 'storm', 'cyclic'], oracles=[T.oracle_exactly_once, T.oracle_layout], gen=['Gen_layout', 'Gen_router'],
                 nontriv=lambda s: s.n // s.ppn > 1 and s.routing != 'NONE'),
     'C02': dict(prop='Properties_C02.v', kinds=['mixed', 'storm'], oracles=[T.oracle_barrier], gen=[],
                 nontriv=lambda s: any(m.get('parent', -1) >= 0 for u, m in s.meta.items() if isinstance(u, int))),
     'C03': dict(prop='Properties_C03.v', kinds=['collective', 'mixed', 'storm', 'masked', 'stream', 'amplify'], oracles=[T.oracle_liveness], gen=[],
                 nontriv=lambda s: s.bufkb <= 1 or s.nirecv == 1 or s.freq == 1),
-    'C05': dict(prop='Properties_C05.v', kinds=['mixed'], oracles=[lambda s, r: T.oracle_exactly_once(s, r, kinds=('B', 'M'))], gen=['Gen_layout', 'Gen_bcast'],
+    'C05': dict(prop='Properties_C05.v', kinds=['mixed', 'cyclic'], oracles=[lambda s, r: T.oracle_exactly_once(s, r, kinds=('B', 'M')), T.oracle_layout], gen=['Gen_layout', 'Gen_bcast'],
                 nontriv=lambda s: any(m['kind'] in ('B', 'M') for u, m in s.meta.items() if isinstance(u, int)) and s.n > 1),
     'C07': dict(prop='Properties_C07.v', kinds=['aggregate', 'stream', 'mixed'], oracles=[T.oracle_capacity], gen=[],
                 nontriv=lambda s: s.kind in ('aggregate', 'stream')),
